@@ -4,6 +4,7 @@ import (
 	"fmt"
 	"math"
 
+	"github.com/sahandsafizadeh/qeep/component/layers/activations"
 	"github.com/sahandsafizadeh/qeep/tensor"
 
 	"qmc/core"
@@ -115,4 +116,65 @@ func scalarArgC06(c *core.Ctx) {
 			})
 		}
 	}
+}
+
+// scalarArgC15: LeakyRelu slopes no narrower type holds (and slopes far below any absolute tolerance): the
+// gradient delivered to a leaf and to the operand of a chain is upstream * (1 or m), compared relatively.
+func scalarArgC15(c *core.Ctx) {
+	slopes := []float64{0.123456789, 1e-50, -2.5e40, 123456789.125, 1 + 1.0/(1<<40), 3e-320, 4, -2}
+	xs := []float64{-2, -0.5, 3, -1e-3, 0.25, -7}
+	ws := []float64{1.5, -2, 0.7, 3, -1, 0.125}
+	for _, m := range slopes {
+		for _, shape := range [][]int{{6}, {2, 3}, {3, 1, 2}} {
+			for chain := 0; chain < 2; chain++ {
+				m, shape, chain := m, shape, chain
+				c.Case(fmt.Sprintf("scalararg/LeakyRelu/%v/%v/chain%d", m, shape, chain), true, func() core.Verdict {
+					act := activationsLeaky(m)
+					if act == nil {
+						return core.Fail("NewLeakyRelu(M=%v) returned nil", m)
+					}
+					leaf := rt.Make(&ref.T{Shape: shape, V: xs}, true)
+					in, k := leaf, 1.0
+					if chain == 1 {
+						leaf = rt.Make(&ref.T{Shape: shape, V: ref.Map(&ref.T{Shape: shape, V: xs}, func(v float64) float64 { return v / 2 }).V}, true)
+						in, k = leaf.Scale(2), 2
+					}
+					y, err := act.Forward(in)
+					if err != nil {
+						return core.Fail("Forward: %v", err)
+					}
+					expY, expG := ref.New(shape), ref.New(shape)
+					for i, x := range xs {
+						d := 1.0
+						if x < 0 {
+							d = m
+						}
+						expY.V[i] = x * d
+						expG.V[i] = k * (ws[i] * d)
+					}
+					if ok, msg := relEqElems(rt.Read(y), expY, 1e-12); !ok {
+						return core.Fail("LeakyRelu(M=%v) value: %s", m, msg)
+					}
+					z, err := y.Mul(rt.Make(&ref.T{Shape: shape, V: ws}, false))
+					if err != nil {
+						return core.Fail("Mul: %v", err)
+					}
+					if err := tensor.BackPropagate(z); err != nil {
+						return core.Fail("BackPropagate: %v", err)
+					}
+					if leaf.Gradient() == nil {
+						return core.Fail("no gradient on the input")
+					}
+					if ok, msg := relEqElems(rt.Read(leaf.Gradient()), expG, 1e-12); !ok {
+						return core.Fail("LeakyRelu(M=%v) gradient (inputs %v away from 0, upstream %v, chain factor %v): %s", m, xs, ws, k, msg)
+					}
+					return core.Pass()
+				})
+			}
+		}
+	}
+}
+
+func activationsLeaky(m float64) *activations.LeakyRelu {
+	return activations.NewLeakyRelu(&activations.LeakyReluConfig{M: m})
 }
